@@ -285,6 +285,52 @@ func TestVerifStress(t *testing.T) {
 				sFileSeqs.Incref(sqIds[h])
 			}
 		}
+		// creates from several goroutines at once: every handle must be non-zero and unique
+		var cwg sync.WaitGroup
+		created := make([][]FrameSetId, G)
+		createdQ := make([][]FileSeqId, G)
+		for g := 0; g < G; g++ {
+			cwg.Add(1)
+			go func(g int) {
+				defer cwg.Done()
+				for i := 0; i < 200; i++ {
+					created[g] = append(created[g], sFrameSets.Add(*fset))
+					createdQ[g] = append(createdQ[g], sFileSeqs.Add(seq))
+				}
+			}(g)
+		}
+		cwg.Wait()
+		seenS, seenQ := map[FrameSetId]bool{}, map[FileSeqId]bool{}
+		for g := 0; g < G; g++ {
+			for _, id := range created[g] {
+				if id == 0 || seenS[id] {
+					t.Fatalf("concurrent creates gave a zero or duplicate frame set handle %d", id)
+				}
+				seenS[id] = true
+			}
+			for _, id := range createdQ[g] {
+				if id == 0 || seenQ[id] {
+					t.Fatalf("concurrent creates gave a zero or duplicate sequence handle %d", id)
+				}
+				seenQ[id] = true
+			}
+		}
+		for h := 0; h < H; h++ {
+			if seenS[fsIds[h]] || seenQ[sqIds[h]] {
+				t.Fatalf("a new handle equals a live one")
+			}
+		}
+		if sFrameSets.Len() != len0s+H+G*200 {
+			t.Fatalf("live frame sets after concurrent creates: %d, want %d", sFrameSets.Len(), len0s+H+G*200)
+		}
+		for g := 0; g < G; g++ {
+			for _, id := range created[g] {
+				sFrameSets.Decref(id)
+			}
+			for _, id := range createdQ[g] {
+				sFileSeqs.Decref(id)
+			}
+		}
 		var wg sync.WaitGroup
 		var bad int32
 		for g := 0; g < G; g++ {
